@@ -55,6 +55,9 @@ type cfg struct {
 	// option set (1: incoming-face indication toggled, 2: fragmentation toggled, 3: both toggled) and
 	// then changed to the final options with SetOptions, as management faces/update does.
 	via int
+	// mtuChange: 0 the sender was created at the MTU in force; 1/2 it was created at a smaller/larger
+	// MTU, sent packets, and then got this MTU through LinkService.SetMTU (management faces/update)
+	mtuChange int
 }
 
 // features lists how a configuration departs from the baseline (fragmentation on, nothing attached).
@@ -92,6 +95,12 @@ func (c cfg) features() []string {
 	case 3:
 		f = append(f, "SetOptions(from:both-toggled)")
 	}
+	switch c.mtuChange {
+	case 1:
+		f = append(f, "SetMTU(raised-on-live-face)")
+	case 2:
+		f = append(f, "SetMTU(lowered-on-live-face)")
+	}
 	return f
 }
 func (c cfg) String() string {
@@ -111,7 +120,7 @@ func viaCfgs() []cfg {
 			for via := 1; via <= 3; via++ {
 				for _, t := range []int{0, 1} {
 					for _, m := range []int{0, 3} {
-						out = append(out, cfg{fr, ifi, t, m, via})
+						out = append(out, cfg{fr, ifi, t, m, via, 0})
 					}
 				}
 			}
@@ -130,7 +139,7 @@ func allCfgs(base bool) []cfg {
 		for _, ifi := range []bool{false, true} {
 			for _, t := range toks {
 				for _, m := range marks {
-					out = append(out, cfg{fr, ifi, t, m, 0})
+					out = append(out, cfg{fr, ifi, t, m, 0, 0})
 				}
 			}
 		}
@@ -286,6 +295,7 @@ type pair struct {
 	ctx  *wctx
 	c    cfg
 	mtu  int
+	mtu0 int // MTU the sender was created with, when it differs (block 4)
 	stx  *face.VerifC10Transport
 	snd  *face.NDNLPLinkService
 	rtx  *face.VerifC10Transport
@@ -389,7 +399,7 @@ func (p *pair) runCase(size int, st *caseStats) {
 	c, mtu := p.c, p.mtu
 	out, wantTok, wantMark, anyMark := p.outPkt(tp, size)
 	replay := func() map[string]any {
-		return map[string]any{"enumeration": "A", "mtu": mtu, "size": size, "packet": string(tp.kind), "config": c.String()}
+		return map[string]any{"enumeration": "A", "mtu": mtu, "mtu_before": p.mtu0, "size": size, "packet": string(tp.kind), "config": c.String()}
 	}
 	p.stx.VerifReset()
 	if c.mark == 2 {
@@ -613,7 +623,7 @@ func main() {
 	rep := report.New("C10", "exploration")
 	thorough := rep.Thorough()
 	start := time.Now()
-	budgetA := 70 * time.Second
+	budgetA := 60 * time.Second
 	if thorough {
 		budgetA = 24 * time.Minute
 	}
@@ -797,6 +807,17 @@ func main() {
 		covA["block2_mtu_list"] = fmt.Sprint(mtus2)
 	}
 
+	// block 4: MTU changed on a live face
+	b4budget := 20 * time.Second
+	if thorough {
+		b4budget = 3 * time.Minute
+	}
+	cov4, cases4, pairs4 := enumMTUChange(thorough, time.Now().Add(b4budget))
+	covA["block4"] = cov4
+	tot.nCases += cases4
+	shapes += pairs4
+	completeA = completeA && cov4["complete"] == true
+
 	// ---------------- Enumeration B ----------------
 	covB := enumB(thorough, samples)
 
@@ -817,6 +838,7 @@ func main() {
 		"Packet contents: Data padded through Content (name component length 1..8 to reach every size), Interests below the smallest Data; sizes with no well-formed packet are sent as raw bytes and judged on the sender side only.",
 		"Own congestion marking (config mark:own) is armed through a hook that puts the link service in the state 'threshold exceeded, last mark long ago' and a transport reporting a congested queue; wall-clock time never decides an outcome.",
 		"Enumeration B also runs harness-built reference frames (Sequence/FragIndex/FragCount on every fragment, token and mark repeated) so that the receiver is exercised in every order even while the sender omits FragIndex/FragCount.",
+		"Block 4 changes the MTU of a live sender (created at m0, has sent packets) with LinkService.SetMTU, the setter management faces/update uses, for all ordered pairs of the 74-value MTU list, and applies the same oracle with the MTU then in force to packet sizes straddling both MTUs.",
 		"Block 3 reaches the sender's options through SetOptions from every other (fragmentation, incoming-face indication) option set; the oracle is the same as for a sender constructed with the final options.",
 		"MTU < 128 (where the header reserve can reach the MTU: division by zero in sendPacket) is outside this property (C17/C04).",
 	})
